@@ -58,12 +58,13 @@ def check(r):
             "expected": sorted((x["schedule_id"], x["recurring"], sorted(d.name for d in x["days"]), x["start_time"], x["end_time"], x["duration"]) for x in exp)}
 
 
-def gen(rnd):
-    k = rnd.choice([0, 1, 2, 3, 8, rnd.randrange(0, 10)])
+def gen(rnd, k=None):
+    if k is None:
+        k = rnd.choice([0, 1, 2, 3, 8, rnd.randrange(0, 10)])
     body = bytearray()
     for j in range(k):
         q = bytearray(rnd.randrange(256) for _ in range(16))
-        q[0] = rnd.choice([j, rnd.randrange(8), rnd.randrange(256)])
+        q[0] = rnd.choice([j % 256, rnd.randrange(8), rnd.randrange(256)])
         q[2] = rnd.choice([0, 2, 254, rnd.randrange(2, 255)])
         for off in (4, 8):
             q[off:off + 4] = rnd.choice([0, 1700000000, rnd.randrange(2 ** 31)]).to_bytes(4, "little")
@@ -86,7 +87,17 @@ def run_case(c):
             if not res["ok"]:
                 res.update(evaluations=n + 1, case={"prop": "C10", "kind": "check", "inputs": {"r": canon(r)}})
                 return res
-        return {"ok": True, "evaluations": i["n"]}
+        # listings longer than one 1024-byte read holds (the bare function; the any-count step lemma of the proof covers these):
+        # own random stream, so that the draws above do not move
+        rnd2 = random.Random(i["seed"] * 7919 + 10)
+        longs = [60, 61, 62, 63, 64, 65, 66, 100, 128, 255, 256, 257, 300] + [rnd2.randrange(62, 400) for _ in range(max(3, i["n"] // 100))]
+        for n, k2 in enumerate(longs):
+            r = gen(rnd2, k2)
+            res = check(r)
+            if not res["ok"]:
+                res.update(evaluations=i["n"] + n + 1, case={"prop": "C10", "kind": "check", "inputs": {"r": canon(r)}})
+                return res
+        return {"ok": True, "evaluations": i["n"] + len(longs)}
     if k == "zones_same_reply":
         # the SAME listing decoded again after the host zone changed (TZ + tzset) inside one process: each decoding is in the zone
         # that is current at that moment (a decoding remembered from the earlier zone is an hour or more off)
